@@ -4,7 +4,7 @@
    numbering, ANY order); `indices` is a slot table (RefXxx.facets / RefXxx.edges). *)
 From Coq Require Import List Arith ZArith Bool Sorted.
 Import ListNotations.
-Require Import Base.C11_Unique Model.C11_Topo Proofs.C11_TopoProofs Gen.C11Refdom Dyn.C11Tie.
+Require Import Base.C11_Unique Model.C11_Topo Proofs.C11_TopoProofs Proofs.C11_EquivProofs Gen.C11Refdom Dyn.C11Tie.
 
 (* each facet / edge appears once, as a sorted tuple, the array is in strictly increasing lexicographic order *)
 Theorem C11_entities_unique_sorted :
@@ -220,6 +220,52 @@ Proof.
     apply padded_slot_key_vertex_set; try assumption; simpl; tauto.
 Qed.
 Print Assumptions C11_entity_key_independent_of_local_order.
+
+(* INDEPENDENCE OF CELL ORDER: permuting the cells changes neither the facet / edge array nor the number a (slot, cell) pair gets
+   (hence f2t, boundary sets ... are the same up to the permutation of the cell indices) — every slot table, every cell list *)
+Theorem C11_cell_order_invariant :
+  forall cells cells2 idx : list (list nat), Permutation.Permutation cells cells2 ->
+    entities true cells2 idx = entities true cells idx /\
+    forall s e e2, s < length idx -> e < length cells -> e2 < length cells2 -> nth e2 cells2 [] = nth e cells [] ->
+      nth e2 (nth s (mapping cells2 idx) []) 0 = nth e (nth s (mapping cells idx) []) 0.
+Proof. exact cell_order_invariant. Qed.
+Print Assumptions C11_cell_order_invariant.
+
+(* INDEPENDENCE OF VERTEX NUMBERING (set level), for every cell type of the library (facet and edge tables regenerated from refdom.py),
+   every list of cells with pairwise distinct vertices and every injective renumbering p of the vertices: in the renumbered mesh
+   (1) two (slot, cell) pairs name the same entity iff they did before (same incidence pattern, so the induced map on entity numbers
+       is a bijection compatible with t2f / t2e);
+   (2) the entity named by a (slot, cell) pair has exactly the renumbered vertices;
+   (3) the cells containing an entity are the same, and an entity has a single neighbour (f2t[1] = -1, boundary) iff it had. *)
+Theorem C11_renumbering_equivariant :
+  forall (k : kind) (idx : list (list nat)) (p : nat -> nat) (cells : list (list nat)),
+    idx = k_facets k \/ idx = k_edges k ->
+    (forall a b, p a = p b -> a = b) ->
+    Forall (fun c => NoDup c /\ length c = k_nnodes k) cells ->
+    let cells' := map (map p) cells in
+    forall s e, s < length idx -> e < length cells ->
+      (forall s' e', s' < length idx -> e' < length cells ->
+         (t2f_at cells' idx s e = t2f_at cells' idx s' e' <-> t2f_at cells idx s e = t2f_at cells idx s' e')) /\
+      (forall v, In v (nth (t2f_at cells' idx s e) (entities true cells' idx) []) <->
+                 exists u, In u (nth (t2f_at cells idx s e) (entities true cells idx) []) /\ v = p u) /\
+      (forall e1, e1 < length cells ->
+         (contains cells' idx (t2f_at cells' idx s e) e1 <-> contains cells idx (t2f_at cells idx s e) e1)) /\
+      (slots_injective cells idx ->
+       (row1 (f2t_of cells' idx) (t2f_at cells' idx s e) = (-1)%Z <-> row1 (f2t_of cells idx) (t2f_at cells idx s e) = (-1)%Z)).
+Proof.
+  intros k idx p cells Hidx Hinj Hc cells' s e Hs He.
+  destruct (shape_every_cell_type k idx Hidx) as [HB HS].
+  assert (Hlen : Forall (fun c => length c = k_nnodes k) cells).
+  { rewrite Forall_forall in *. intros c Hin. now apply Hc. }
+  assert (Hshape : forall ix c, In ix idx -> In c cells -> shape (slotv ix c)).
+  { intros ix c Hix Hcin. rewrite Forall_forall in Hc. destruct (Hc c Hcin) as [N L]. now apply HS. }
+  split; [|split; [|split]].
+  - intros s' e' Hs' He'. now apply (relabel_incidence p Hinj cells idx (k_nnodes k) Hlen HB Hshape).
+  - intros v. now apply (relabel_vertex_sets p cells idx (k_nnodes k) Hlen HB).
+  - intros e1 He1. now apply (relabel_contains p Hinj cells idx (k_nnodes k) Hlen HB Hshape).
+  - intros Hsi. now apply (relabel_boundary p Hinj cells idx (k_nnodes k) Hlen HB Hshape).
+Qed.
+Print Assumptions C11_renumbering_equivariant.
 
 (* ---- non-vacuity: two triangles sharing the edge {1,2}, one renumbered quadrilateral pair, a tetrahedron *)
 Example C11_two_triangles :
